@@ -84,6 +84,25 @@ pub fn fmt_stub(_a: std::fmt::Arguments<'_>) -> String {
     String::new()
 }
 
+/// Results are stripped of their error value before a harness looks at them: the drop glue of
+/// `std::io::Error` (`Box<dyn Error + Send + Sync>`, recursive over every `dyn Error` impl) is what
+/// CBMC drowns in (k3_parse_fixed: > 900 s with it, 25 s without). The error value is leaked
+/// (`mem::forget`), never inspected; no property speaks about destructors of error values.
+pub fn noerr<T, E>(r: Result<T, E>) -> Result<T, ()> {
+    match r {
+        Ok(v) => Ok(v),
+        Err(e) => {
+            std::mem::forget(e);
+            Err(())
+        }
+    }
+}
+
+/// `std::io::_print` stand-in (what `println!` expands to): decode.rs has a debugging
+/// `println!("read {}", f)` in the FLOAT arm; float Display is out of CBMC's reach (time-out).
+/// Standard output is not part of any property.
+pub fn print_stub(_a: std::fmt::Arguments<'_>) {}
+
 /// Fixed-capacity byte sink / empty source. `write` is all-or-nothing so that a write beyond the
 /// sink shows up as Err, never as silent truncation.
 pub struct Buf<const N: usize> {
